@@ -1,6 +1,6 @@
 ---------------------------- MODULE C02_MCPsk ----------------------------
 EXTENDS C02_Psk, Json
-St == << nsent, wn, Len(wire), rn, Len(delivered), under, closed, rg, wg, eofd, wdead, reof >>
+St == << nsent, wn, Len(wire), rn, Len(delivered), under, closed, rg, wg, eofd, wdead, reof, wr, nglitch >>
 EmitEdge == PrintT(<<"VFEDGE", ToJson([s |-> St, op |-> op', t |-> St'])>>)
 Conf == [noncelen |-> NonceLen, maxsent |-> MaxSent, bufs |-> Bufs, shorts |-> Shorts, glitches |-> Glitches]
 MCInit == Init /\ PrintT(<<"VFINIT", ToJson(St)>>) /\ PrintT(<<"VFCONF", ToJson(Conf)>>)
